@@ -211,6 +211,9 @@ def run(ctx) -> Report:
         "physical_value_shape of each sub-element is lifted from pullback.py and cross-checked with the modelled layout."
     )
     rep.assumptions = ["bilinear / linear integrands (so that the projected integrands sum to the original)", "extract_blocks' bookkeeping over Forms (empty blocks, arities) is not lifted"]
+    from ..memokey import memo_rule
+
+    memo_rule(ctx, rep, "C22-key", ['ufl.algorithms.formsplitter'])
     return rep
 
 
